@@ -35,7 +35,7 @@ MANIFEST = dict(
         "complement, pairing, fold-size and class balance, requested fold, recreation indices and shape."),
   note=TRUST + "checked by correspondence + oracle only (no theorem): that the dealing order the real createCVSameSizeBalanced draws is class-sorted (validSeq is "
        "checked on every observed order) and that the element-dealing loops equal their net effect `regroup`; the RNG "
-       "itself is not modelled. Findings F1, F11, F12 (findings_proposed/C12.md) make the check print VIOLATION on the unrepaired tree.",
+       "itself is not modelled. Open findings F1, F11 (findings_proposed/C12.md; F12 and F9 were repaired upstream meanwhile) make the check print VIOLATION on the unrepaired tree.",
   technique="Lean 4 proofs over the regenerated batch arithmetic, the fold index sets and the regrouping + differential correspondence with observed RNG draws (ASan/UBSan)",
   design="§6 C12")
 
